@@ -46,6 +46,8 @@ def run(v, tier, replay):
                 if d == "honest":
                     continue
                 b = rest.split(".")[0] if d in ("trunc", "mut", "len", "extend") else "none"
+                if d == "envelope":
+                    b = rest.split(" ")[0]
                 covered.add((g[0], g[1], d, b))
             if rc is None:
                 raise lib.Inconclusive("child %s timed out" % (g,))
